@@ -9,6 +9,9 @@ CONSTANTS
   MaxRej = 2
   Impl = "fixed"
   Sym = FALSE
+  NCallers = 0
+  Removal = "skip"
+  Emit = "none"
 VIEW View
-INVARIANTS TypeOK R0ok R1ok R2ok R3ok R4ok R6ok
+INVARIANTS TypeOK Gone R0ok R1ok R2ok R3ok R4ok R6ok
 CHECK_DEADLOCK FALSE
